@@ -285,6 +285,13 @@ class Program:
             if ins[0] == "leaf":
                 _, shape, values, req = ins
                 t = torch.tensor(values, dtype=dtype).reshape(shape)
+                if len(shape) >= 2 and len(ts) % 3 == 1:
+                    # every third leaf of rank >= 2 is DENSE BUT NOT ROW-MAJOR (column-major storage, as a
+                    # transposed parameter or a channels_last weight): same values, same shape, still a leaf
+                    rev = tuple(reversed(range(len(shape))))
+                    base = torch.empty(tuple(reversed(shape)), dtype=dtype).permute(rev)
+                    base.copy_(t)
+                    t = base
                 if req:
                     t.requires_grad_(True)
                 ts.append(t)
@@ -661,7 +668,7 @@ def entangled(prog, feats):
     return False
 
 
-def gen_mtl(rng: random.Random, overlap=False, nested=None, bound=2 ** 20):
+def gen_mtl(rng: random.Random, overlap=False, nested=None, bound=2 ** 20, alias=None):
     """trunk (random program) -> 1..3 feature tensors -> 1..4 heads with 0..3 own parameters
     (parameters shared between tasks in ~30 %).  Returns (prog, features, losses, tasks, shared)
     with tasks = per-loss lists of own parameters (leaves), shared = leaves the features reach.
@@ -691,7 +698,7 @@ def gen_mtl(rng: random.Random, overlap=False, nested=None, bound=2 ** 20):
                 sf = p.shapes[f]
                 c = rng.random()
                 if c < 0.55:
-                    if pool and rng.random() < 0.3 and any(p.shapes[q] == sf for q in pool):
+                    if pool and rng.random() < (0.7 if alias else 0.3) and any(p.shapes[q] == sf for q in pool):
                         q = rng.choice([q for q in pool if p.shapes[q] == sf])
                     else:
                         q = p.leaf(sf, _rand_vals(rng, sf), True)
@@ -713,7 +720,7 @@ def gen_mtl(rng: random.Random, overlap=False, nested=None, bound=2 ** 20):
                 pool.append(q)
                 params.append(q)
                 terms.append(p.op("sum", [q]))          # additive parameter
-            if rng.random() < 0.25:
+            if alias or (alias is None and rng.random() < 0.25):
                 # two same-shape parameters entering additively: autograd hands back ONE gradient
                 # tensor for both (aliasing hazard for whoever stores it without cloning)
                 f0 = feats[0]
@@ -721,8 +728,13 @@ def gen_mtl(rng: random.Random, overlap=False, nested=None, bound=2 ** 20):
                 b2 = p.leaf(p.shapes[f0], _rand_vals(rng, p.shapes[f0]), True)
                 pool += [b1, b2]
                 params += [b1, b2]
-                if rng.random() < 0.5:
+                v = rng.random()
+                if v < 0.3:
                     terms.append(p.op("sum", [p.op("add", [p.op("add", [f0, b1]), b2])]))
+                elif v < 0.6:
+                    # ((f + b1 + b2)^2).sum(): the gradient 2(f + b1 + b2) is a fresh dense tensor handed
+                    # to b1 AND b2 (and to the feature) as one object
+                    terms.append(p.op("sum", [p.op("square", [p.op("add", [p.op("add", [f0, b1]), b2])])]))
                 else:
                     # W_eff = base + offset used multiplicatively: the shared gradient tensor is a fresh,
                     # contiguous, non-view tensor
@@ -853,10 +865,61 @@ def _wrap_iterable(kind):
     return list
 
 
+AGG_CALLS = []          # matrices the aggregator was applied to during the last impl_call
+
+
 def impl_call(ts, call, dtype, agg_obj=None):
-    """run the real entry point on already-built tensors; returns exception class name or None"""
+    """run the real entry point on already-built tensors; returns exception class name or None.
+    The aggregator's forward is observed through a forward hook (AGG_CALLS): the properties speak of
+    `aggregator(J)`, so the aggregator must be APPLIED, once, to the Jacobian itself."""
     from torchjd import backward, mtl_backward
     A = agg_obj or mk_agg_obj(call["agg"], dtype)
+    del AGG_CALLS[:]
+    handle = A.register_forward_hook(
+        lambda mod, args, out: AGG_CALLS.append(args[0].detach().to(torch.float64).tolist()))
+    try:
+        return _impl_call(ts, call, A, backward, mtl_backward)
+    finally:
+        handle.remove()
+
+
+def expected_matrix(prog, call):
+    """the exact matrix the aggregator must be applied to (None when there is nothing to aggregate)"""
+    if call["entry"] == "backward":
+        ord_ = call["eff_inputs"]
+        if not ord_:
+            return None
+        J = []
+        for o in call["tensors"]:
+            blocks = [D_nonleaf(prog, o, i) for i in ord_]
+            for r in range(numel(prog.shapes[o])):
+                J.append([x for b in blocks for x in b[r]])
+        return J
+    sh = call["eff_shared"]
+    return mtl_matrix(prog, call["features"], call["losses"], sh) if sh else None
+
+
+def agg_calls_ok(prog, call):
+    """None when the aggregator was applied exactly once to the exact Jacobian (columns compared as a
+    multiset: the order of defaulted parameter sets is the iteration order of a Python set), else a
+    description.  Only meaningful for float64 runs of integer programs (exact)."""
+    J = expected_matrix(prog, call)
+    if J is None or not J or not J[0]:
+        return None
+    if len(AGG_CALLS) != 1:
+        return f"the aggregator was applied {len(AGG_CALLS)} times instead of once to the Jacobian"
+    M = AGG_CALLS[0]
+    if len(M) != len(J) or any(len(r) != len(J[0]) for r in M):
+        return (f"the aggregator was applied to a {len(M)}x{len(M[0]) if M else 0} matrix, the Jacobian is "
+                f"{len(J)}x{len(J[0])}")
+    colsM = sorted(tuple(float(M[i][j]) for i in range(len(M))) for j in range(len(M[0])))
+    colsJ = sorted(tuple(float(J[i][j]) for i in range(len(J))) for j in range(len(J[0])))
+    if colsM != colsJ:
+        return "the matrix handed to the aggregator is not the Jacobian (rows in the given order, columns per parameter)"
+    return None
+
+
+def _impl_call(ts, call, A, backward, mtl_backward):
     try:
         if call["entry"] == "backward":
             tens = [ts[o] for o in call["tensors"]]
